@@ -378,7 +378,9 @@ impl Read for Handle {
             w.fire("r-short");
         }
         let pos = self.pos as usize;
-        buf[..n].copy_from_slice(&w.devices[dev].data[pos..pos + n]);
+        if n > 0 {
+            buf[..n].copy_from_slice(&w.devices[dev].data[pos..pos + n]);
+        }
         ev.moved = n as u32;
         if log_reads {
             w.log.push(ev);
